@@ -186,6 +186,39 @@ def random_scenario(rng, tr, fx, cutall=False, small=False):
     return out
 
 
+def everybyte_scenario(rng, tr, fx):
+    """fixed-width history whose LAST data file is known (sizes are simulated here) to hold 2..5 lines of at least two
+    seconds, followed by a cut at every byte offset of that file and of its index file, three searches after each cut"""
+    ser = Serial()
+    maxsize = rng.choice([180, 240, 300, 360, 10 ** 6])
+    maxfiles = rng.choice([1, 2, 3])
+    t0sec = rng.choice([5, DAY - 2, DAY - 1, 3 * DAY - 4])
+    out = [dict(op='new', tr=tr, maxsize=maxsize, maxfiles=maxfiles, t0=t0sec * 1000 + rng.randint(0, 999), fx=fx)]
+    sec, cur, cursecs, n = t0sec, 0, set(), 0
+    while True:
+        n += 1
+        step = rng.choice([0, 1, 1, 2, 5]) if n > 1 else rng.choice([0, 1])
+        if rng.random() < 0.1:
+            step = DAY - sec % DAY
+        k = rng.choice([1, 1, 2])
+        if sec // DAY != (sec + step) // DAY:
+            cur, cursecs = 0, set()
+        sec += step
+        out.append(dict(op='write', t=sec * 1000 + rng.randint(0, 999), items=[fixed_item(rng, rng.choice(['r1', 'r2']), ser) for _ in range(k)]))
+        cur += k
+        cursecs.add(sec)
+        if cur * W >= maxsize:
+            cur, cursecs = 0, set()
+        if n >= 3 and 2 <= cur <= 5 and len(cursecs) >= 2 or n > 40:
+            break
+    lo = min(cursecs) if cursecs else sec
+    finds = [dict(op='find', s=0, b=0, e=(sec + 5) * 1000, res=''),
+             dict(op='from', s=0, b=rng.choice([0, lo * 1000, sec * 1000]), n=rng.choice([1, 2, 100])),
+             dict(op='find', s=0, b=rng.choice([lo, sec, lo + 1]) * 1000, e=(sec + 5) * 1000, res=rng.choice(['', 'r1']))]
+    out += [dict(op='find', s=1, b=lo * 1000, e=(sec + 5) * 1000, res=''), dict(op='cutall', file='data', finds=finds), dict(op='cutall', file='idx', finds=finds)]
+    return out
+
+
 def safe_scenario(rng, tr, fx):
     """no roll, no write in the creation second, fresh searchers only: no known deviation can show (binding self-test)"""
     ser = Serial()
@@ -283,7 +316,7 @@ def handle_mismatches(c, drv, scns, mism, tag, confirm=True, replay_path=None):
                     c.save_replay('known-%s-%s-tr%d.ndjson' % (cl, tag, m['tr']), s)
                 c.known(k, c.kf[k].get('description') or WHAT[cl])
             continue
-        if saved.get(label, 0) >= 2 or sum(saved.values()) >= 12:
+        if saved.get(label, 0) >= 2 or (sum(saved.values()) >= 12 and label in saved):      # every class set is listed at least once
             c.cov['violations_not_listed'] = c.cov.get('violations_not_listed', 0) + 1
             continue
         saved[label] = saved.get(label, 0) + 1
@@ -356,20 +389,22 @@ def nontrivial(s):
 
 
 # ------------------------------------------------------------------------------------------------ leads
-LEADS = [   # (name, switch that is OFF, model instance)
-    ('cache', 'cache', dict(maxwrites=3, maxqueries=2, withcut=False, createsecs='{1}')),
-    ('offreset', 'offreset', dict(maxwrites=3, maxqueries=2, withcut=False, createsecs='{1}')),
-    ('create', 'headidx', dict(maxwrites=2, maxqueries=1, withcut=False)),
-    ('roll-size', 'headidx', dict(maxwrites=5, maxqueries=0, withcut=False, csw=False, daylen=100, createsecs='{1}', batches='MCBatches1')),
-    ('roll-day', 'headidx', dict(maxwrites=3, maxqueries=0, withcut=False, csw=False, daylen=2, maxsize=100, createsecs='{1}')),
-    ('torn', 'torn', dict(maxwrites=2, maxqueries=0, withcut=True, createsecs='{1}')),
+LEADS = [   # (name, switch that is OFF, classes that show it on the code, model instance)
+    # (except for "create" nothing is written in the creation second, so that a lead shows its own defect class only)
+    ('cache', 'cache', {'cache'}, dict(maxwrites=3, maxqueries=2, withcut=False, createsecs='{1}', csw=False, daylen=100)),
+    ('offreset', 'offreset', {'cache'}, dict(maxwrites=3, maxqueries=2, withcut=False, createsecs='{1}', csw=False, daylen=100)),
+    ('create', 'headidx', {'create'}, dict(maxwrites=2, maxqueries=1, withcut=False)),
+    ('roll-size', 'headidx', {'roll'}, dict(maxwrites=5, maxqueries=0, withcut=False, csw=False, daylen=100, createsecs='{1}')),
+    ('roll-day', 'headidx', {'roll'}, dict(maxwrites=3, maxqueries=0, withcut=False, csw=False, daylen=2, maxsize=100, createsecs='{1}')),
+    ('torn', 'torn', {'torn'}, dict(maxwrites=2, maxqueries=0, withcut=True, createsecs='{1}', csw=False, daylen=100)),
 ]
+LEAD_CLASSES = {name: cls for name, _, cls, _ in LEADS}
 
 
 def get_leads(c):
     """one TLC run per repair switched off: the design must break, the counterexamples are the leads"""
     out = {}
-    for name, sw, kw in LEADS:
+    for name, sw, _, kw in LEADS:
         fixes = [x for x in ALL_FIXES if x != sw]
         r = c.model_check('MetricLog_MC', cfg_text=mc_cfg(fixes, invariants='LeadFresh LeadCached', **kw), workers=4, timeout=600)
         leads = [x for x in r.json_prints() if isinstance(x, dict) and 'lead' in x]
@@ -416,10 +451,16 @@ def check(c, tier, replay):
             lead_scns.append(decorate(x['lead'], tr, rng, [], final_s=x['s'], drift=False, tail=False))
             lead_of[tr] = name
     mism, _, _ = run_and_validate(c, drv, lead_scns, 'leads')
-    hit = {}
+    hit, stray = {}, {}
     for m in mism:
-        hit.setdefault(lead_of[m['tr']], set()).update(m['cls'])
-    c.log('leads reproduced on the code: %s' % ({k: sorted(v) for k, v in hit.items()} or 'none'))
+        name = lead_of[m['tr']]
+        own = set(m['cls']) & LEAD_CLASSES[name]
+        if own:
+            hit.setdefault(name, set()).update(own)
+        if set(m['cls']) - LEAD_CLASSES[name]:
+            stray.setdefault(name, set()).update(set(m['cls']) - LEAD_CLASSES[name])
+    c.log('leads reproduced on the code: %s%s' % ({k: sorted(v) for k, v in hit.items()} or 'none',
+                                                 ('  (other classes seen on leads: %s)' % {k: sorted(v) for k, v in stray.items()}) if stray else ''))
     code_fx = []
     if 'cache' not in hit:
         code_fx.append('cache')
@@ -488,13 +529,16 @@ def check(c, tier, replay):
     for i in range(nrand):
         tr += 1
         rnd.append(random_scenario(rng, tr, code_fx))
-    ncutall = 4 if not thorough else 40
+    ncutall = 5 if not thorough else 60
     every = []
     for i in range(ncutall):
         tr += 1
-        every.append(random_scenario(rng, tr, code_fx, cutall=True, small=True))
+        every.append(everybyte_scenario(rng, tr, code_fx))
     # S3 + S4 ----------------------------------------------------------------------------
-    for tag, group in (('tlc', scns), ('sim', sim), ('random', rnd), ('everybyte', every)):
+    groups = [('tlc', scns), ('sim', sim), ('random', rnd), ('everybyte', every)]
+    if not thorough:
+        groups = [('all', scns + sim + rnd + every)]        # one driver / TLC start for the whole quick tier
+    for tag, group in groups:
         for i in range(0, len(group), 2000):
             part = group[i:i + 2000]
             mism, drifts, tp = run_and_validate(c, drv, part, '%s%d' % (tag, i))
